@@ -113,6 +113,9 @@ func (propC09) Draw(rt *rapid.T, w *WorldDesc, mode string) *Plan {
 		return drawOpenAPIHeaders(rt, w)
 	}
 	p := &Plan{}
+	if rapid.IntRange(0, 5).Draw(rt, "ctxDone") == 0 {
+		p.ServerDeadlineMs = -1 // the Go server sees requests whose context is already done
+	}
 	var methods []*MethodDesc
 	for _, m := range w.AllMethods() {
 		if r := w.RPC(m.Key); r != nil && r.PathKnown {
